@@ -564,7 +564,7 @@ theorem getSubs_lazy {cfg : Cfg} {alloc : Alloc} (p : Addr) : ∀ (cs : List Cla
         · cases hg
         · split at hg
           · cases hg; exact ⟨rfl, rfl⟩
-          · cases hmk : mkPalette cfg alloc c pp.conf pp.noColor s with
+          · cases hmk : mkPalette cfg alloc (ci.actual c) pp.conf pp.noColor s with
             | error e => simp [hmk] at hg
             | ok r2 =>
               obtain ⟨s2, b2⟩ := r2
